@@ -464,26 +464,23 @@ def _position_finder(x_matrix):
     """
     A helper function to obtain the position of the Hadamard gates needed to turn a stabilizer state into a graph state
 
+    The Hadamard gates go on the qubits (columns) that have no pivot in the row echelon form of the X part; swapping
+    these columns with the corresponding columns of the Z part makes the X part invertible.
+
     :param x_matrix: binary matrix for representing Pauli X part of the symplectic binary
-            representation of the stabilizer generators
+            representation of the stabilizer generators, in row echelon form (see the row_reduction function)
     :type x_matrix: numpy.ndarray
     :return: list of qubit positions to apply the Hadamard on
     :rtype: list
     """
-    pivot = [0, 0]
-    n = x_matrix.shape[0]
+    n_row, n_column = x_matrix.shape
     pos_list = []
-    while pivot[0] < n and pivot[1] < n:
-        try:
-            if x_matrix[pivot[0] + 1, pivot[1]] == 1:
-                pivot = [pivot[0] + 1, pivot[1]]
-            if x_matrix[pivot[0] + 1, pivot[1] + 1] == 1:
-                pivot = [pivot[0] + 1, pivot[1] + 1]
-            else:
-                pivot = [pivot[0], pivot[1] + 1]
-                pos_list.append(pivot[1])
-        except:
-            break
+    row = 0  # the first row whose pivot has not been found yet
+    for column in range(n_column):
+        if row < n_row and x_matrix[row, column] == 1:
+            row += 1  # pivot column: this qubit keeps its X column
+        else:
+            pos_list.append(column)
 
     return pos_list
 
